@@ -34,6 +34,7 @@ InitObs(P) ==
     dreg  |-> EmptyFn,      \* C12: (function, key) -> the in-flight deduplicated task, as the property defines it
     aband |-> {},           \* tasks given up because their computation was ended from outside (runaway-recursion reset, raising flush())
     abandfl |-> {},         \* ... those of them given up because BatchBase.flush() itself raised
+    killed |-> {},          \* tasks completed from outside by a `fail` op
     assigned |-> {},        \* <<task, variable>>: the task assigned to the variable inside its override; its own reads are not judged until the override is next resumed
     fl    |-> <<>>,         \* compositions (sets of items) of the scheduler's flushes so far
     ovf   |-> FALSE,        \* a synchronous call has just failed with the runaway-recursion RuntimeError (scheduler reset)
@@ -191,7 +192,7 @@ Step(S, e) ==
               IfBad((T.thrown # 0 /\ NoFaultyCtx(P)) => (IsX(e.v) /\ e.u = T.thrown), "C02.prop") \cup
               \* a task suspended at a yield is completed only by having the yield's outcome delivered into its code; the
               \* exceptions are failures raised by its own contexts when the scheduler suspends / resumes it
-              IfBad(T.st = "waiting" => (IsX(e.v) /\ (e.v.n = 70000 \/ (e.v.n >= 90000 /\ e.v.n < 91000))), "C02.deliver") \cup
+              IfBad((T.st = "waiting" /\ f \notin S.killed) => (IsX(e.v) /\ (e.v.n = 70000 \/ (e.v.n >= 90000 /\ e.v.n < 91000))), "C02.deliver") \cup
               (IF S.ref # <<>> THEN IfBad(e.v = S.ref[f], "C01.done") ELSE {}) \cup
               \* every context the task entered has been left, ending with a pause
               IfBad(\A c \in DOMAIN S.ctx : S.ctx[c].owner = f /\ S.ctx[c].ty \notin {"nonasync", "cleanup"} /\ NoFaultyCtx(P)
@@ -205,8 +206,8 @@ Step(S, e) ==
               LET b == S.item[f]
                   mode == P.kinds[S.bat[b].kind].flush
                   exp == ItemOut(mode, S.bat[b].kind, f)
-              IN IfBad(S.bat[b].st = "flushing", "C05.items.when") \cup
-                 IfBad(e.v = exp, "C05.items.val")
+              IN IfBad(S.bat[b].st \in {"flushing", "cancelling"}, "C05.items.when") \cup
+                 IfBad(IF S.bat[b].st = "cancelling" THEN e.v = VX(32000 + S.bat[b].kind) ELSE e.v = exp, "C05.items.val")
         IN [S |-> S1, bad |-> IfBad(known /\ ~S.fut[f].done, "C10.once") \cup taskBad \cup itemBad]
 
     [] e.e = "NewBatch" ->
@@ -285,12 +286,18 @@ Step(S, e) ==
 
     [] e.e = "FlushEnd" -> [S |-> S, bad |-> {}]
 
+    [] e.e = "CancelBegin" ->      \* task code cancels a pending batch: its unanswered items get the cancellation error
+        IF e.b \notin DOMAIN S.bat THEN [S |-> S, bad |-> {"H.unknown_batch"}] ELSE
+        [S |-> [S EXCEPT !.bat[e.b].st = "cancelling"], bad |-> IfBad(S.bat[e.b].st = "pending", "C11.once")]
+
+    [] e.e = "Kill" -> [S |-> [S EXCEPT !.killed = @ \cup {e.a}], bad |-> {}]   \* task e.a is about to be completed from outside
+
     [] e.e = "BatchDone" ->
         IF e.b \notin DOMAIN S.bat THEN [S |-> S, bad |-> {"H.unknown_batch"}] ELSE
         LET B == S.bat[e.b] IN
         [S |-> [S EXCEPT !.bat[e.b].st = "flushed"],
          bad |-> IfBad(\A i \in 1..Len(B.items) : FutDone(S, B.items[i]), "C05.items.all") \cup
-                 IfBad(B.st \in {"flushing", "pending"}, "C11.once")]
+                 IfBad(B.st \in {"flushing", "pending", "cancelling"}, "C11.once")]
 
     [] e.e = "After" ->
         IF e.b \notin DOMAIN S.bat THEN [S |-> S, bad |-> {"H.unknown_batch"}] ELSE
@@ -363,7 +370,7 @@ Step(S, e) ==
                     \* an exception raised by value() is the root task's own failure (the same instance)
                     IfBad((IsX(e.v) /\ ~IsEscape(e.v)) => (rootDone /\ S.fut[root].u = e.u), "C02.prop") \cup
                     (IF S.ref # <<>> THEN IfBad(e.v = S.ref[root], "C01.ret") ELSE {}) \cup
-                    IfBad((NoFaultyCtx(P) /\ ~HasCtxType(P, "nonasync") /\ ~IsEscape(e.v)) => \A t \in Tasks(S) \ S.aband : S.ts[t].seg > 0 => FutDone(S, t), "C03.term") \cup
+                    IfBad((NoFaultyCtx(P) /\ ~HasCtxType(P, "nonasync") /\ ~IsEscape(e.v) /\ NoKillOps(P)) => \A t \in Tasks(S) \ S.aband : S.ts[t].seg > 0 => FutDone(S, t), "C03.term") \cup
                     IfBad(\A b \in DOMAIN S.bat : S.bat[b].nbefore = S.bat[b].nafter, "C05.events") \cup
                     (IF YieldOnly(P) /\ TreeShaped(P) /\ SingleKind(P) /\ S.ref # <<>> /\ S.ncall = 1 /\ P.kinds[1].flush # "spawn"
                      THEN IfBad(S.nflush = CriticalPath(P, root), "C04.count") ELSE {}) \cup
